@@ -559,7 +559,10 @@ class Run:
         ev = {"property_id": self.pid, "tier": self.tier, "seed": self.seed, "level": level, "coverage": cov,
               "assumptions": self.assumptions, "wall_s": round(time.time() - self.t0, 2),
               "violations": len(self.violations)}
-        json.dump(ev, open(os.path.join(VERIF, "evidence", "%s.json" % self.pid), "w"), indent=1, default=str)
+        # a run retargeted at another tree (VERIF_REPO: seeded-change tests) must not overwrite the evidence of /repo
+        evdir = "evidence" if os.path.realpath(REPO) == "/repo" else "evidence_other_tree"
+        os.makedirs(os.path.join(VERIF, evdir), exist_ok=True)
+        json.dump(ev, open(os.path.join(VERIF, evdir, "%s.json" % self.pid), "w"), indent=1, default=str)
         print("%s tier=%s seed=%d obligations=%d discharged=%d evaluations=%d distinct=%d known=%d violations=%d wall=%.1fs" % (
             self.pid, self.tier, self.seed, self.obligations, self.discharged, self.evaluations, len(self.distinct),
             len(self.known_hit), len(self.violations), time.time() - self.t0))
